@@ -109,7 +109,14 @@ pub enum ImportOp {
     },
     /// a registration frame (`xs.context`); `zero` = in the zero context
     Reg { pos: PosSel, zero: bool, adjacent: Option<u8>, ttl: Option<WTtl> },
-    Nul { topic: String, pos: PosSel },
+    /// a frame that cannot be stored (NUL in its topic); with `over`, under the id of a frame
+    /// that is stored: the refused import must leave that frame as it is
+    Nul {
+        topic: String,
+        pos: PosSel,
+        #[serde(default)]
+        over: Option<u16>,
+    },
 }
 
 /// A syntactically valid HTTP request that the API must refuse with a 4xx
@@ -560,7 +567,7 @@ pub fn op_strategy(p: &Profile) -> BoxedStrategy<Op> {
             .prop_map(|(target, topic, ctx, ttl)| ImportOp::Reuse { target, topic, ctx, ttl }),
         2 => (any::<u16>(), meta_opt(p.meta), prop_oneof![2 => Just(None), 1 => Just(Some(WTtl::Forever)), 1 => Just(Some(WTtl::Time(u64::MAX)))], any::<bool>())
             .prop_map(|(target, meta, ttl, hash)| ImportOp::Amend { target, meta, ttl, hash }),
-        1 => (topic_nul(), pos_sel()).prop_map(|(topic, pos)| ImportOp::Nul { topic, pos }),
+        2 => (topic_nul(), pos_sel(), proptest::option::weighted(0.5, any::<u16>())).prop_map(|(topic, pos, over)| ImportOp::Nul { topic, pos, over }),
     ]
     .prop_map(Op::Import);
     let import_reg = (
@@ -720,6 +727,7 @@ pub struct Flags {
     pub excluded_time_reg_import: u32,
     pub gc_removed_with_neighbour: bool,
     pub http_follower: bool,
+    pub refused_import_over_stored: bool,
 }
 
 impl Default for Flags {
@@ -743,6 +751,7 @@ impl Default for Flags {
             excluded_time_reg_import: 0,
             gc_removed_with_neighbour: false,
             http_follower: false,
+            refused_import_over_stored: false,
         }
     }
 }
@@ -2118,8 +2127,28 @@ impl Interp {
                     };
                     self.do_import(spec)?;
                 }
-                ImportOp::Nul { topic, pos } => {
-                    let id = self.resolve_pos(pos);
+                ImportOp::Nul { topic, pos, over } => {
+                    let mut id = self.resolve_pos(pos);
+                    if let Some(sel) = over {
+                        let ev = self.model.pending_evictable();
+                        let live: Vec<u128> = self
+                            .known
+                            .iter()
+                            .filter(|k| k.spec.topic != "xs.context" && !ev.contains(&k.id))
+                            .filter(|k| {
+                                self.model
+                                    .frames
+                                    .get(&k.id)
+                                    .map(|f| f.presence == Presence::Present && f.pending_remove.is_none() && !self.model.is_expired(f))
+                                    .unwrap_or(false)
+                            })
+                            .map(|k| k.id)
+                            .collect();
+                        if let Some(i) = pick(*sel, live.len()) {
+                            id = live[i];
+                            self.flags.refused_import_over_stored = true;
+                        }
+                    }
                     let spec = FrameSpec {
                         topic: topic.clone(),
                         ctx: ZERO,
@@ -2338,6 +2367,7 @@ pub fn run_history(case: &HistCase) -> Result<(CaseInfo, Flags), Fail> {
         (fl.nul_rejected > 0, "nul-rejected"),
         (fl.gc_removed_with_neighbour, "gc-with-neighbour-topic"),
         (fl.http_follower, "http-follow-stream"),
+        (fl.refused_import_over_stored, "refused-import-over-stored-id"),
         (it.model.fuzzy_checks > 0, "had-three-valued-check"),
     ] {
         if on {
